@@ -248,8 +248,11 @@ class BaseDiscretizer(BaseEstimator, TransformerMixin):
         DataFrame
             A formatted X
         """
-        # for binary/continuous targets
-        if all(len(feature_casting) == 1 for feature_casting in self.features_casting.values()):
+        # for binary/continuous targets (features are not casted: nothing to duplicate)
+        if all(
+            feature_casting == [feature]
+            for feature, feature_casting in self.features_casting.items()
+        ):
             X.rename(
                 columns={
                     feature: feature_casting[0]
